@@ -554,6 +554,12 @@ impl World {
     }
 
     fn scan_everything(&self, rep: &mut Report, seen: &mut BTreeSet<String>) {
+        let t_scan = Instant::now();
+        self.scan_everything_inner(rep, seen);
+        rep.hit_n("scan.wall_ms", t_scan.elapsed().as_millis() as u64);
+    }
+
+    fn scan_everything_inner(&self, rep: &mut Report, seen: &mut BTreeSet<String>) {
         self.scan_store(&self.vstore, "vault", rep, seen);
         self.scan_store(&self.gstore, "graph", rep, seen);
         // snapshot images of the vault store: the checkpoint image `snapshot_bytes()` (bitcode, uncompressed) and
@@ -1445,8 +1451,24 @@ fn gen_op(w: &World, r: &mut Rng) -> Op {
             }
         }
         94 => Op::Reopen,
-        _ => Op::Sleep { ms: 2 + r.below(25) },
+        _ => Op::Sleep { ms: 2 + r.below(21) },
     }
+}
+
+/// OBSERVATION (outside the property's quantifier: the requester is not one of the identities, it is the graph key
+/// of the secret's own node).  `get_permission_level_verified` answers Admin when source == target, so a caller whose
+/// identity string equals `vault_secret:<obfuscated name>` — a string that is readable in the store keys and in the
+/// `entity_key` property of the graph node — passes every check on that secret without any grant.
+fn probe_identity_namespace(w: &World, rep: &mut Report) {
+    let Some(nid) = w.sec_node[0] else { return };
+    let Ok(node) = w.graph.get_node(nid) else { return };
+    let Some(PropertyValue::String(node_key)) = node.properties.get("entity_key") else { return };
+    let perm = w.vault.get_permission(node_key, &w.sec_names[0]).map(lvl);
+    let read_ok = w.vault.get(node_key, &w.sec_names[0]).is_ok();
+    rep.hit(if read_ok { "observe.secret_node_key_as_identity.reads" } else { "observe.secret_node_key_as_identity.denied" });
+    rep.observe(json!({"what": "requester string equal to the secret's own graph-node key (vault_secret:<obfuscated name>, visible in store keys and node properties)",
+        "get_permission": perm, "get_succeeds_without_any_grant": read_ok,
+        "why_not_a_violation": "the requester is not an identity of the quantifier (root + 3-5 named identities); identity strings are chosen by the embedding layer. Reported as a candidate finding: the `source == target => Admin` shortcut of access.rs makes the identity namespace and the secret-node namespace overlap"}));
 }
 
 fn policies() -> Vec<Pol> {
@@ -1781,6 +1803,9 @@ fn directed(m: &mut Model, rep: &mut Report, root: &Rng, seen: &mut BTreeSet<Str
                 break;
             }
         }
+        if name == "names-at-rest-known" {
+            probe_identity_namespace(&w, rep);
+        }
         w.scan_everything(rep, seen);
         rep.case("directed", if ok { Some(name) } else { None });
         if rep.samples.len() < 4 {
@@ -1815,7 +1840,7 @@ fn histories(m: &mut Model, rep: &mut Report, root: &Rng, n: usize, seen: &mut B
             if w.lines.len() > before && w.lines.last().map_or(false, |l| l.contains("=> ok")) {
                 ok_ops += 1;
             }
-            if i % 100 == 99 {
+            if i % 150 == 149 {
                 w.scan_everything(rep, seen);
             }
         }
@@ -1933,9 +1958,12 @@ fn main() {
     let mut seen = BTreeSet::new();
     let t = Instant::now();
     directed(&mut m, &mut rep, &root.fork("directed"), &mut seen);
+    let t_dir = t.elapsed().as_secs_f64();
     let (nh, np) = if args.thorough { (400, 6000) } else { (30, 500) };
     perm_stream(&mut m, &mut rep, &root.fork("perm"), np);
+    let t_perm = t.elapsed().as_secs_f64();
     histories(&mut m, &mut rep, &root.fork("histories"), nh, &mut seen);
+    rep.note(&format!("stream wall times: directed {:.1}s, perm {:.1}s, histories {:.1}s", t_dir, t_perm - t_dir, t.elapsed().as_secs_f64() - t_perm));
     rep.note(&format!("corr_vault wall time {:.1}s", t.elapsed().as_secs_f64()));
     rep.note("TTL expiry is driven with real short TTLs (6-55 ms) and sleeps; calls are never started within 4 ms before / 0.4 ms after a pending expiry and a call that overlaps one aborts its history (counted as history.aborted_time_ambiguous)");
     rep.note("secret names are generated without '*' (a '*' turns a list pattern into a wildcard) and without '/' inside a namespace component; names/values shorter than 6 bytes are excluded from the plaintext scan");
